@@ -64,6 +64,7 @@ struct RankState {
     std::vector<std::string> out_parts;      // scatter root: one payload per rank
     std::string in_payload;                  // what this rank receives
     bool waiting = false, returned = false;
+    std::vector<int> group;                  // world ranks taking part in the pending collective (empty = the whole world)
     std::function<std::string(const std::string&, const std::string&)> op;   // reduce: combine two serialized values
     bool commutative = false;
 };
@@ -133,12 +134,12 @@ inline std::string describe(World &w) {
 }
 
 // all-subsets DP for a commutative reduction; returns distinct results (as bytes)
-inline std::vector<std::string> reduce_outcomes(World &w) {
-    int P = w.P;
-    auto &op = w.rs[0].op;
-    bool comm = w.rs[0].commutative;
+inline std::vector<std::string> reduce_outcomes(World &w, const std::vector<int> &G) {
+    int P = (int) G.size();
+    auto &op = w.rs[G[0]].op;
+    bool comm = w.rs[G[0]].commutative;
     std::vector<std::string> in(P);
-    for (int i = 0; i < P; ++i) in[i] = w.rs[i].out_payload;
+    for (int i = 0; i < P; ++i) in[i] = w.rs[G[i]].out_payload;
     auto add = [](std::vector<std::string> &s, std::string v) { for (auto &x : s) if (x == v) return; s.push_back(std::move(v)); };
     if (!comm) {
         // rank-order preserving trees over intervals
@@ -162,19 +163,38 @@ inline std::vector<std::string> reduce_outcomes(World &w) {
     return V[(1u << P) - 1];
 }
 
-inline void execute_collective(World &w) {
-    int kind = w.rs[0].kind, root = w.rs[0].root;
+// members of the collective that rank r is waiting in (world ranks, ascending)
+inline std::vector<int> group_of(World &w, int r) {
+    if (!w.rs[r].group.empty()) return w.rs[r].group;
+    std::vector<int> g(w.P); for (int i = 0; i < w.P; ++i) g[i] = i; return g;
+}
+// root is stored as a WORLD rank; scatter parts are indexed by position in the group
+inline void execute_collective(World &w, const std::vector<int> &G) {
+    int kind = w.rs[G[0]].kind, root = w.rs[G[0]].root;
     ++w.collectives;
-    if (kind == BCAST) { for (int i = 0; i < w.P; ++i) w.rs[i].in_payload = w.rs[root].out_payload; }
-    else if (kind == SCATTER) { for (int i = 0; i < w.P; ++i) w.rs[i].in_payload = w.rs[root].out_parts.at(i); }
+    if (kind == BCAST) { for (int i : G) w.rs[i].in_payload = w.rs[root].out_payload; }
+    else if (kind == SCATTER) { for (std::size_t k = 0; k < G.size(); ++k) w.rs[G[k]].in_payload = w.rs[root].out_parts.at(k); }
     else if (kind == REDUCE) {
-        std::vector<std::string> outs = reduce_outcomes(w);
+        std::vector<std::string> outs = reduce_outcomes(w, G);
         if (outs.size() > w.reduce_max_outcomes) w.reduce_max_outcomes = outs.size();
         if (outs.size() > 1) ++w.reduce_multi;
         int k = vx::choose((int) outs.size(), vx::OUTCOME);
         w.rs[root].in_payload = outs[k];
     }
-    for (int i = 0; i < w.P; ++i) w.rs[i].waiting = false;
+    for (int i : G) w.rs[i].waiting = false;
+}
+// A collective can run when every member of its group waits in the same collective of the same communicator. Returns false
+// if no pending collective is complete (then nobody can ever run again: deadlock).
+inline bool execute_some_collective(World &w) {
+    for (int r = 0; r < w.P; ++r) {
+        if (w.rs[r].returned || !w.rs[r].waiting) continue;
+        std::vector<int> G = group_of(w, r);
+        bool same = true;
+        for (int i : G) same &= !w.rs[i].returned && w.rs[i].waiting && w.rs[i].kind == w.rs[r].kind && w.rs[i].root == w.rs[r].root && group_of(w, i) == G
+                                 && (G.size() != (std::size_t) w.P || w.rs[i].seq == w.rs[r].seq);
+        if (same) { execute_collective(w, G); return true; }
+    }
+    return false;
 }
 
 #ifdef VMPI_THREADS
@@ -198,13 +218,10 @@ inline bool run_ranks(World &w, const std::function<void(int)> &body) {
             int next = -1;
             for (int r : w.baton_order) if (!w.rs[r].returned && !w.rs[r].waiting) { next = r; break; }
             if (next < 0) {
-                bool all_ret = true, all_wait = true;
-                for (int r = 0; r < w.P; ++r) { all_ret &= w.rs[r].returned; all_wait &= w.rs[r].waiting; }
+                bool all_ret = true;
+                for (int r = 0; r < w.P; ++r) all_ret &= w.rs[r].returned;
                 if (all_ret) break;
-                bool same = all_wait;
-                if (same) for (int r = 1; r < w.P; ++r) same &= w.rs[r].kind == w.rs[0].kind && w.rs[r].root == w.rs[0].root && w.rs[r].seq == w.rs[0].seq;
-                if (!same) { w.deadlock = true; w.deadlock_desc = describe(w); w.aborted = true; w.cv.notify_all(); break; }
-                execute_collective(w);
+                if (!execute_some_collective(w)) { w.deadlock = true; w.deadlock_desc = describe(w); w.aborted = true; w.cv.notify_all(); break; }
                 continue;
             }
             w.baton = next; w.cv.notify_all();
@@ -246,15 +263,12 @@ inline bool run_ranks(World &w, const std::function<void(int)> &body) {
             bool all_ret = true;
             for (int r = 0; r < w.P; ++r) all_ret &= w.rs[r].returned;
             if (all_ret) break;
-            bool same = true;
-            for (int r = 0; r < w.P; ++r) { if (w.rs[r].returned) { same = false; break; } same &= w.rs[r].waiting && w.rs[r].kind == w.rs[0].kind && w.rs[r].root == w.rs[0].root && w.rs[r].seq == w.rs[0].seq; }
-            if (!same) {
+            if (!execute_some_collective(w)) {
                 w.deadlock = true; w.deadlock_desc = describe(w); w.aborted = true;
                 // unwind every suspended rank: resume it so that it throws Aborted out of its collective
                 for (int r = 0; r < w.P; ++r) if (!w.rs[r].returned && started[r]) { current_rank() = r; swapcontext(&F.sched, &F.ctx[r]); }
                 break;
             }
-            execute_collective(w);
             continue;
         }
         current_rank() = next; started[next] = 1;
@@ -270,12 +284,21 @@ template<class T> void unpack(const std::string &s, T &v) { std::istringstream i
 
 } // namespace vmpi
 
+// A default-constructed communicator is the world (as in Boost.MPI). A sub-communicator is a sorted list of world ranks;
+// rank() / size() / roots are relative to it, and its collectives involve its members only.
 class communicator {
 public:
     communicator() {}
-    int rank() const { return vmpi::current_rank(); }
-    int size() const { return vmpi::current_world() ? vmpi::current_world()->P : 1; }
-    void barrier() const {}
+    explicit communicator(std::shared_ptr<const std::vector<int>> members) : members_(members) {}
+    int rank() const { int r = vmpi::current_rank(); if (!members_) return r; for (std::size_t i = 0; i < members_->size(); ++i) if ((*members_)[i] == r) return (int) i; return -1; }
+    int size() const { if (members_) return (int) members_->size(); return vmpi::current_world() ? vmpi::current_world()->P : 1; }
+    int world_rank_of(int comm_rank) const { return members_ ? members_->at(comm_rank) : comm_rank; }
+    const std::vector<int> *members() const { return members_.get(); }
+    void barrier() const;
+    // split by colour, ranks ordered by world rank (the harness's way to obtain sub-communicators; one collective)
+    communicator split(int color) const;
+private:
+    std::shared_ptr<const std::vector<int>> members_;
 };
 
 class environment {
@@ -296,43 +319,54 @@ public:
 };
 
 namespace vmpi {
-    inline void enter(World &w, int r, int kind, int root) {
+    inline void enter(World &w, int r, int kind, int root, const communicator &comm) {
         RankState &s = w.rs[r];
-        s.kind = kind; s.root = root; ++s.seq; s.waiting = true;
+        s.group.clear(); if (comm.members()) s.group = *comm.members();
+        s.kind = kind; s.root = comm.world_rank_of(root); ++s.seq; s.waiting = true;
         yield_to_scheduler(w, r);
     }
 }
 
 template<class T>
 void broadcast(const communicator &comm, T &value, int root) {
-    vmpi::World &w = *vmpi::current_world(); int r = comm.rank();
-    w.rs[r].out_payload = (r == root) ? vmpi::pack(value) : std::string();
-    vmpi::enter(w, r, vmpi::BCAST, root);
-    if (r != root) vmpi::unpack(w.rs[r].in_payload, value);
+    vmpi::World &w = *vmpi::current_world(); int r = vmpi::current_rank(); const int cr = comm.rank();
+    w.rs[r].out_payload = (cr == root) ? vmpi::pack(value) : std::string();
+    vmpi::enter(w, r, vmpi::BCAST, root, comm);
+    if (cr != root) vmpi::unpack(w.rs[r].in_payload, value);
 }
 
 template<class T, class Op>
 void reduce(const communicator &comm, const T &in_value, T &out_value, Op op, int root) {
-    vmpi::World &w = *vmpi::current_world(); int r = comm.rank();
+    vmpi::World &w = *vmpi::current_world(); int r = vmpi::current_rank(); const int cr = comm.rank();
     w.rs[r].out_payload = vmpi::pack(in_value);
     w.rs[r].commutative = is_commutative<Op, T>::value;
     w.rs[r].op = [op](const std::string &a, const std::string &b) { T x, y; vmpi::unpack(a, x); vmpi::unpack(b, y); T z = op(x, y); return vmpi::pack(z); };
-    vmpi::enter(w, r, vmpi::REDUCE, root);
-    if (r == root) vmpi::unpack(w.rs[r].in_payload, out_value);
+    vmpi::enter(w, r, vmpi::REDUCE, root, comm);
+    if (cr == root) vmpi::unpack(w.rs[r].in_payload, out_value);
 }
 template<class T, class Op>
 void reduce(const communicator &comm, const T &in_value, Op op, int root) { T dummy; reduce(comm, in_value, dummy, op, root); }
 
 template<class T>
 void scatter(const communicator &comm, const std::vector<T> &in_values, T &out_value, int root) {
-    vmpi::World &w = *vmpi::current_world(); int r = comm.rank();
+    vmpi::World &w = *vmpi::current_world(); int r = vmpi::current_rank(); const int cr = comm.rank();
     w.rs[r].out_parts.clear();
-    if (r == root) for (int i = 0; i < w.P; ++i) w.rs[r].out_parts.push_back(vmpi::pack(in_values.at(i)));
-    vmpi::enter(w, r, vmpi::SCATTER, root);
+    if (cr == root) for (int i = 0; i < comm.size(); ++i) w.rs[r].out_parts.push_back(vmpi::pack(in_values.at(i)));
+    vmpi::enter(w, r, vmpi::SCATTER, root, comm);
     vmpi::unpack(w.rs[r].in_payload, out_value);
 }
 template<class T>
 void scatter(const communicator &comm, T &out_value, int root) { scatter(comm, std::vector<T>(), out_value, root); }
+
+// barrier: everybody of the communicator must arrive (modelled as a broadcast of nothing from its rank 0)
+inline void communicator::barrier() const { if (!vmpi::current_world()) return; int dummy = 0; broadcast(*this, dummy, 0); }
+inline communicator communicator::split(int color) const {
+    std::vector<int> colors; 
+    { std::vector<int> mine(1, color), all; reduce(*this, mine, all, [](const std::vector<int> &a, const std::vector<int> &b) { std::vector<int> r(a); r.insert(r.end(), b.begin(), b.end()); return r; }, 0); broadcast(*this, all, 0); colors = all; }
+    auto mem = std::make_shared<std::vector<int>>();
+    for (int i = 0; i < size(); ++i) if (colors[i] == color) mem->push_back(world_rank_of(i));
+    return communicator(mem);
+}
 
 // Collectives that parmcb does not use today, expressed through the modelled ones (same values, same blocking behaviour:
 // every rank takes part, nobody leaves before everybody has arrived), so that a change which starts using them still builds
